@@ -67,6 +67,8 @@ func buildPool(c *Ctx, input []fhir.Resource) []poolItem {
 		"@2020-01-01T10:00:00Z", "@2020-01-01T15:30:00+05:30", "@2019-12-31T23:00:00-11:00", "@2020-01-01T10:00Z", "@2020-01-01T10:00+05:30",
 		"@2020-01-01T10Z", "@2020-01-01T10:00:00.500Z", "@2020-01-01T10:00:01Z", "@2020-01-01T09:59:59Z", "@2021T", "@2020-02T", "@2020-01-02T",
 		"@2020-01-01T10:00:00.000+00:00", "@2020-01-01T04:30:00-05:30", "@2020-01-01T11",
+		// hour precision at offsets that are not whole hours: equal layouts, different instants, equal components
+		"@2020-01-01T10+00:30", "@2020-01-01T09Z", "@2020-01-01T09", "@2020-01-01T15+05:30", "@2020-01-01T04-05:30", "@2020-01-01T09+00:00",
 		"@T10", "@T10:00", "@T10:00:00", "@T10:00:00.000", "@T10:30", "@T09", "@T10:00:00.500", "@T11:00", "@T10:00:00.0001", "@T10:00:00.000100", "@T10:00:00.0005", "@2020-01-01T10:00:00.0001Z", "@2020-01-01T10:00:00.000100Z",
 		"1 'mg'", "1.0 'mg'", "2 'mg'", "1 'kg'", "1 year", "1 'a'", "12 months", "1 day", "1 days", "0 'mg'",
 		// units are case sensitive (mg / Mg are milligram and megagram)
@@ -184,6 +186,30 @@ func runC05(c *Ctx) {
 						c.Observe("truncation "+src, true)
 						c.Law(got == want, "C05/precision-truncation", "a value written to two different precisions compares as empty with itself, written twice to one precision as equal", src, got+" want "+want)
 					}
+				}
+			}
+		}
+	}
+	// hour precision at an offset that is not a whole number of hours: after normalisation to UTC the components down
+	// to the hour decide — T10+00:30, T15+05:30, T04-05:30 are all hour 9 in UTC, like T09Z and the offset-less T09
+	{
+		same := []string{"@2020-01-01T10+00:30", "@2020-01-01T15+05:30", "@2020-01-01T04-05:30", "@2020-01-01T09Z", "@2020-01-01T09+00:00", "@2020-01-01T09"}
+		later := []string{"@2020-01-01T11+00:30", "@2020-01-01T10Z", "@2020-01-01T16+05:30", "@2020-01-01T10"}
+		wantSame := map[string]string{"=": "ok:[B:true]", "!=": "ok:[B:false]", "<": "ok:[B:false]", "<=": "ok:[B:true]", ">": "ok:[B:false]", ">=": "ok:[B:true]"}
+		wantLess := map[string]string{"=": "ok:[B:false]", "!=": "ok:[B:true]", "<": "ok:[B:true]", "<=": "ok:[B:true]", ">": "ok:[B:false]", ">=": "ok:[B:false]"}
+		for _, op := range []string{"=", "!=", "<", "<=", ">", ">="} {
+			for _, a := range same {
+				for _, b := range same {
+					src := a + " " + op + " " + b
+					got := canonOutcome(compileEval(src, input), nil)
+					c.Observe("hour-offset "+src, true)
+					c.Law(got == wantSame[op], "C05/hour-offset", "hour-precision values are compared component-wise after offset normalisation, whatever the offset", src, got+" want "+wantSame[op])
+				}
+				for _, b := range later {
+					src := a + " " + op + " " + b
+					got := canonOutcome(compileEval(src, input), nil)
+					c.Observe("hour-offset "+src, true)
+					c.Law(got == wantLess[op], "C05/hour-offset", "hour-precision values are compared component-wise after offset normalisation, whatever the offset", src, got+" want "+wantLess[op])
 				}
 			}
 		}
